@@ -9,5 +9,6 @@ CONSTANTS
   AllVariants = TRUE
   MultiEvery = 1
   MultiPlans = 2
+  OptEvery = 1
 INVARIANT Emit
 CHECK_DEADLOCK FALSE
